@@ -209,6 +209,14 @@ pub fn check_c07_srv(case: &C07Srv) -> CaseResult {
     if !case.cfg.decode.is_nothing() {
         ok.label("decode:on");
     }
+    // the RTU server task keeps ONE session object for its whole life and runs it again on a
+    // re-opened port after every error: whatever the peer sent, the task must answer again
+    if case.cfg.framing == Fr::Rtu && !matches!(case.finish, Finish::Park) && case.fail_write_at.is_none() {
+        if let Some(m) = rtu_recovery(case) {
+            return Err(m);
+        }
+        ok.label("rtu:recovery_checked");
+    }
     // non-trivial: at least one frame passed framing and reached PDU handling with decoding on
     let reached = !run.writes.is_empty() || !run.calls.is_empty();
     if reached {
@@ -503,4 +511,69 @@ pub fn export_fuzz_seeds(dir: &std::path::Path, n: usize, seed: u64) -> Result<u
         count += 1;
     }
     Ok(count)
+}
+
+
+/// Emulates the RTU server task's loop: the same session object is run over the generated
+/// stream, then - as after a port failure - again and again over fresh streams that carry a
+/// valid request for a configured unit. Bytes left in the receive buffer may garble the first
+/// sessions (each failed attempt consumes at least one byte of at most 260), but the server must
+/// come back. Returns a violation message if it never answers again.
+fn rtu_recovery(case: &C07Srv) -> Option<String> {
+    use crate::app::{CallLog, LogHandler};
+    use crate::model::crc::rtu_frame;
+    use crate::model::framing::{deframe_rtu, Direction};
+    use crate::sim::{script_io, ReadEv};
+    use rodbus::server::ServerHandlerMap;
+    let units = case.cfg.unit_map();
+    // a unit id that is not the broadcast address
+    let unit = *units.keys().find(|u| **u != 0)?;
+    let rt = crate::sim::runtime(case.select_seed);
+    let log: CallLog = Default::default();
+    let mut map: ServerHandlerMap<LogHandler> = ServerHandlerMap::new();
+    for (u, st) in units {
+        map.add(rodbus::UnitId::new(u), rodbus::server::RequestHandler::wrap(LogHandler::new(u, st, log.clone())));
+    }
+    let parts = case.partition.apply(&case.stream);
+    let finish = case.finish.clone();
+    let decode = case.cfg.decode.to_rodbus();
+    rt.block_on(async move {
+        let (_handle, mut session) = rodbus::verif::server_session(rodbus::verif::Framing::Rtu, map, None, decode);
+        // first life: the generated stream
+        let mut script: Vec<(std::time::Duration, ReadEv)> = parts
+            .into_iter()
+            .map(|b| (std::time::Duration::ZERO, ReadEv::Chunk(b)))
+            .collect();
+        script.push((
+            std::time::Duration::ZERO,
+            match finish {
+                Finish::ReadErr(k) => ReadEv::Err(k),
+                _ => ReadEv::Eof,
+            },
+        ));
+        let (io, _h) = script_io(script, None, None);
+        let _ = session.run(Box::new(io)).await;
+        // later lives: a valid request, then the port fails again
+        let sentinel = rtu_frame(unit, &[3, 0, 0, 0, 1]);
+        for _attempt in 0..300 {
+            let script = vec![
+                (std::time::Duration::ZERO, ReadEv::Chunk(sentinel.clone())),
+                (std::time::Duration::from_millis(5), ReadEv::Eof),
+            ];
+            let (io, h) = script_io(script, None, None);
+            let _ = session.run(Box::new(io)).await;
+            let written = h.written_bytes();
+            let (frames, _) = deframe_rtu(Direction::Response, &written);
+            if frames
+                .iter()
+                .any(|f| f.addr == unit && matches!(f.pdu.first(), Some(3) | Some(0x83)))
+            {
+                return None;
+            }
+        }
+        Some(format!(
+            "RTU server session never answers again after the peer's input: a valid read request to unit {} stayed unanswered in 300 re-opened sessions (the task is alive but deaf)",
+            unit
+        ))
+    })
 }
